@@ -770,6 +770,8 @@ def execute_case(case, collect_samples=False):
     """Run the whole case.  Returns the report."""
     ssj = install()
     ENV.reset()
+    from sim.sched import MODSTATE
+    MODSTATE.reset_workers()
     import warnings
     warnings.simplefilter('ignore')
     rep = {'violations': [], 'calls': 0, 'lib_calls': 0, 'stats': Counter(),
@@ -1242,8 +1244,67 @@ def variant_case(case, op, var):
     return c2
 
 
+def run_drop_missing(case, world, idx, op, out, rep, cpus):
+    """C08: the part of the result over present values is unchanged - the
+    same call on the tables with the missing rows removed and
+    allow_missing=False must give exactly the rows of this result that have no
+    missing side."""
+    comp = op_component(world, op)
+    c2 = dict(case)
+    c2['tables'] = dict(case['tables'])
+    miss = {'l': set(), 'r': set()}
+    if op['l'] == op['r'] and op['l_attr'] != op['r_attr']:
+        return []         # same table, different attributes: rows differ
+    for side in ('l', 'r'):
+        spec = dict(case['tables'][op[side]])
+        ai = spec['columns'].index(op[side + '_attr'])
+        ki = spec['columns'].index(op[side + '_key'])
+        keep = [n for n, r in enumerate(spec['rows']) if r[ai] is not None]
+        miss[side] = set(r[ki] for r in spec['rows'] if r[ai] is None)
+        spec['rows'] = [spec['rows'][n] for n in keep]
+        if spec.get('index') is not None:
+            spec['index'] = [spec['index'][n] for n in keep]
+        c2['tables'][op[side]] = spec
+    if not miss['l'] and not miss['r']:
+        return []
+    w2 = fresh_world(c2, idx)
+    op2 = dict(op)
+    op2.pop('fault', None)
+    if op['op'] == 'join':
+        op2['allow_missing'] = False
+    o2 = run_call(w2, op2, idx, op.get('plan'), None, {}, cpus)
+    rep['lib_calls'] += 1
+    rep['stats']['variant:drop_missing'] += 1
+    if not o2.ok or o2.res is None:
+        return [V('present_part', ['C08', 'C15'],
+                  'C08 %s without-missing-rows-raises' % comp,
+                  'the call on the tables without their missing rows: %s' %
+                  o2.brief())]
+    a = Counter(r[1:] for r in out.res.rows
+                if r[1] not in miss['l'] and r[2] not in miss['r'])
+    b = Counter(r[1:] for r in o2.res.rows
+                if r[1] not in miss['l'] and r[2] not in miss['r'])
+    if out.res.cols != o2.res.cols:
+        return []
+    if a != b:
+        return [V('present_part', ['C08'],
+                  'C08 %s present-part-changes-with-missing-rows' % comp,
+                  'rows over present values differ when the missing rows are '
+                  'removed: only with missing rows %r, only without %r' %
+                  (list((a - b).elements())[:4],
+                   list((b - a).elements())[:4]))]
+    return []
+
+
 def run_variant(case, world, idx, op, out, var, results, rep, cpus):
     what = var['what']
+    if what == 'drop_missing':
+        if op['op'] == 'join' or (op['op'] == 'filter_tables' and
+                                  comparable_exact(world, op) and
+                                  world.case['filters'][op['filter']].get(
+                                      'allow_missing') is False):
+            return run_drop_missing(case, world, idx, op, out, rep, cpus)
+        return []
     comp = op_component(world, op)
     rep['stats']['variant:' + what] += 1
     op2 = dict(op)
